@@ -266,11 +266,24 @@ impl TensorWal {
         let path = path.as_ref().to_path_buf();
 
         // Get current size if file exists
-        let current_size = if path.exists() {
+        let mut current_size = if path.exists() {
             std::fs::metadata(&path)?.len()
         } else {
             0
         };
+
+        // Repair a torn tail. A crash can leave a partially written record at the end of
+        // the file. Appending after it would put every later (acknowledged) record behind
+        // bytes that replay cannot parse, so cut the file back to its last complete record.
+        if current_size > 0 {
+            let complete = Self::complete_prefix_len(&path, current_size)?;
+            if complete < current_size {
+                let file = OpenOptions::new().write(true).open(&path)?;
+                file.set_len(complete)?;
+                file.sync_all()?;
+                current_size = complete;
+            }
+        }
 
         let file = OpenOptions::new().create(true).append(true).open(&path)?;
 
@@ -282,6 +295,29 @@ impl TensorWal {
             current_size,
             pending_sync_count: 0,
         })
+    }
+
+    /// Length of the longest prefix of the file that consists of complete records
+    /// (`[length][checksum][payload]`). Anything after it is a partially written record.
+    fn complete_prefix_len(path: &Path, file_len: u64) -> io::Result<u64> {
+        let mut reader = BufReader::new(File::open(path)?);
+        let mut offset = 0u64;
+        loop {
+            let mut header = [0u8; 8];
+            match reader.read_exact(&mut header) {
+                Ok(()) => {},
+                Err(e) if e.kind() == io::ErrorKind::UnexpectedEof => break,
+                Err(e) => return Err(e),
+            }
+            let len = u64::from(u32::from_le_bytes([header[0], header[1], header[2], header[3]]));
+            if offset + 8 + len > file_len {
+                break;
+            }
+            #[allow(clippy::cast_possible_wrap)] // len <= u32::MAX
+            reader.seek_relative(len as i64)?;
+            offset += 8 + len;
+        }
+        Ok(offset)
     }
 
     /// Get the WAL file path.
